@@ -382,7 +382,7 @@ func TestC19_Cohort(t *testing.T) {
 				pat := []string{"5", "1", "50000001", "5000001", "49999999", "500000000000001", "7", "25"}[ir(t, 0, 7, "pattern")]
 				pc, _ := new(big.Int).SetString(pat, 10)
 				p := nx.Exp + ref.DecLen(nx.Coef) - 34 // exponent of the last digit of a 34-digit result
-				lead := p - 1 - ir(t, 0, 3, "below")  // exponent of y's leading digit
+				lead := p - 1 - ir(t, 0, 3, "below")   // exponent of y's leading digit
 				a.Y = DFin(genSign(t), pc, clampExp(lead-len(pat)+1))
 			default:
 				a.Y = genCohortRich(t)
